@@ -1,7 +1,7 @@
 """C07, join part: the thick stroke join machinery (Model/Join.v, Proofs/Join.v, Properties/C07_join.v)."""
 from common import *
 
-HOOK_SUITES = False   # joinh_* suites need verif hook functions that are not in /repo yet (notes/join-hook.patch)
+HOOK_SUITES = True    # joinh_* suites read internals through verif_hooks (hook commit fe5d89e in /repo)
 
 RULE = ('join correspondence: thick polylines (2..6 vertices, widths 2..12, repeated vertices, reversals, colinear and nearly colinear runs, '
         'sharp angles, coordinates on both sides of the axes and up to +-300) through Polyline.into_styled(w).pixels() (exact order), '
